@@ -1019,8 +1019,12 @@ impl World {
                         for _ in 0..cnt {
                             let pos = s.user_rng.below(n as u64) as usize;
                             let val = s.user_rng.byte();
-                            d.shadow_q[k][pos] = val;
-                            d.master.get_mut(h).pi_q_mut()[pos] = val;
+                            // (a process image whose length is no longer the configured one is
+                            // for C04's image monitor to report, not for the user model to trip over)
+                            if let Some(b) = d.master.get_mut(h).pi_q_mut().get_mut(pos) {
+                                *b = val;
+                                d.shadow_q[k][pos] = val;
+                            }
                         }
                         Some(UserAct::WriteQ { app: a, periph: k })
                     }
